@@ -1689,6 +1689,8 @@ def run(tier: str, only=None) -> core.Result:
     sched.absorb(res, "f-set-version-while-routing", RUN, out, cfgs)
     samples += _pick("f-set-version-while-routing", cfgs)
     sched.debug_pass(res, "f-set-version-while-routing", RUN, cfgs, every=9)
+    from . import c13_entry
+    c13_entry.add_part(res, tier)
 
     cnt: Dict[str, int] = {}
     dbg_exec = 0
